@@ -56,6 +56,10 @@ func propC15(g *G, n int) {
 	}
 	for k := 0; k < rounds; k++ {
 		reps := g.classReps()
+		emit(0, "NaN", nil)
+		for _, sg := range []int64{0, 1, -1, g.i64(), -1 << 63, 1<<63 - 1, int64(g.pick(5)) - 2} {
+			emit(0, "Inf", []string{sI64(sg)})
+		}
 		for _, x := range reps {
 			xs := x.String()
 			for _, f := range elemFns {
